@@ -494,6 +494,13 @@ class Interface(object):
                 if v.get_namespace() is None:
                     v.resolve_namespace(v, ns)
 
+                # XmlData answers to the name of the type it wraps: that type
+                # has to go in first, or it's taken for already being there.
+                if issubclass(v, XmlModifier):
+                    if v.type.get_namespace() is None:
+                        v.type.resolve_namespace(v.type, ns)
+                    self.add_class(v.type)
+
                 self.add_class(v)
 
                 if v.get_namespace() is None and cls.get_namespace() is not None:
